@@ -27,6 +27,7 @@ type RPC struct {
 	Client2  []string `json:"client2,omitempty"` // second client task (e.g. receiver)
 	Handler  []string `json:"handler"`
 	Handler2 []string `json:"handler2,omitempty"` // spawned by the handler ("go")
+	Timeout  string   `json:"timeout,omitempty"`  // this call's own deadline (duration from the virtual now), e.g. "1h"
 }
 
 // Scenario is one closed system to explore.
@@ -83,6 +84,7 @@ type RPCRec struct {
 	SrvHdrRes      []string
 	HandlerRet     string
 	HandlerDone    bool
+	SrvDeadline    []string // handler op "dl": time left until the handler context's deadline ("none" without one)
 	CtxErrAtRet    string
 	// started receive counters (backpressure monitor)
 	CliRecvStarted int
